@@ -259,6 +259,14 @@ def run(ctx):
         L = isinst(s, M, 'list')
         Dparts = (isinst(s, M, 'dict'), infact(s, 'operator'), infact(s, 'value'))
         D = True if all(x is True for x in Dparts) else False if any(x is False for x in Dparts) else None
+        if D is None:
+            # the same test kept in a named boolean: the conjunction as a whole was decided
+            want_parts = {('pure', 'builtin:isinstance', (M, 'dict')), ('cmp', 'In', 'operator', M), ('cmp', 'In', 'value', M)}
+            for k_, f_ in s.facts.items():
+                if isinstance(k_, tuple) and len(k_) == 3 and k_[0] == 'boolop' and k_[1] == 'and' and set(k_[2]) <= want_parts and f_[1] is False:
+                    D = False       # a conjunction of (some of) the parts failed
+                if isinstance(k_, tuple) and len(k_) == 3 and k_[0] == 'boolop' and k_[1] == 'and' and set(k_[2]) == want_parts and f_[1] is True:
+                    D = True
         rn = s.facts.get(R)
         mn = s.facts.get(M)
         rec_none = rn[0] if rn else None
